@@ -12,16 +12,19 @@ from packaging.markers import Marker as PkgMarker  # noqa: E402
 THEOREMS_BY_PROP = {
     "C02": ["DepLogic.C02.and_sound", "DepLogic.C02.or_sound", "DepLogic.C02.isEmpty_sound", "DepLogic.C02.isAny_sound",
             "DepLogic.C02.rewriting_sound", "DepLogic.M.sound_all", "DepLogic.M.singleSound", "DepLogic.M.mergeSingle_ok",
-            "DepLogic.M.str_coherent", "DepLogic.C02.and_sound_lex", "DepLogic.C02.or_sound_lex", "DepLogic.C02.bridge",
+            "DepLogic.M.str_coherent", "DepLogic.C02.and_sound_final", "DepLogic.C02.or_sound_final", "DepLogic.C02.bridge",
+            "DepLogic.M.lexPrint_final", "DepLogic.M.lexNorm_final", "DepLogic.Lex.natOfDigits_toString",
+            "DepLogic.Lex.parseClauseL_final",
             "DepLogic.M.fromSpecOk_of_lex", "DepLogic.M.pyMergeOk_of_fromSpec", "DepLogic.C02.env0_total",
             "DepLogic.C02.atomFull_good"],
-    "C03": ["DepLogic.C03.build_sound", "DepLogic.M.sound_all", "DepLogic.M.singleSound"],
-    "C07": ["DepLogic.C07.str_empty_any", "DepLogic.C07.items_sem", "DepLogic.C07.reparse_sound", "DepLogic.C07.items_ok",
+    "C03": ["DepLogic.C03.build_sound", "DepLogic.C03.build_sound_final", "DepLogic.M.sound_all", "DepLogic.M.singleSound"],
+    "C07": ["DepLogic.C07.str_empty_any", "DepLogic.C07.items_sem", "DepLogic.C07.reparse_sound", "DepLogic.C07.reparse_sound_final",
+            "DepLogic.C07.items_ok",
             "DepLogic.C07.atomOf_atomItem", "DepLogic.C03.build_sound"],
     "C12": ["DepLogic.C12.only_mentions", "DepLogic.C12.only_implied", "DepLogic.C12.only_same",
             "DepLogic.C12.exclude_mentions", "DepLogic.C12.exclude_implied", "DepLogic.C12.exclude_same_partial",
             "DepLogic.C12.exclude_same_needs_noVanish", "DepLogic.C12.only_ok", "DepLogic.C12.exclude_ok",
-            "DepLogic.C12.singleSound_names"],
+            "DepLogic.C12.singleSound_names", "DepLogic.C12.only_final", "DepLogic.C12.exclude_final"],
     "C15": ["DepLogic.C15.flatten_nodup", "DepLogic.C15.mkMulti_nodup", "DepLogic.C15.mkUnion_nodup",
             "DepLogic.C15.multiOf_exit", "DepLogic.C15.unionOfList_exit", "DepLogic.C15.and_neutral",
             "DepLogic.C15.or_neutral"]}
